@@ -199,7 +199,11 @@ def run(chk):
     chk.add_tlc("mc.replay-epochs", res)
     deep = vlib.tlc_generate("ReplayEpochs", "ReplayEpochs.gendeep.%s.cfg" % chk.tier, timeout=1500)
     chk.add_tlc("gen.replay-epochs", deep)
-    c06.run_scripts(chk, binary, [dict(x, ver="13") for x in deep.printed], "replays-across-updates", test="TestVerifReplayOps")
+    ops = [dict(x, ver="13") for x in deep.printed]
+    # the same arrival scripts on a generation that has already carried more than 2^16 records: the 16 sequence-number bits on
+    # the wire are completed relative to the highest number accepted IN THE RECORD'S OWN EPOCH, also once a newer epoch exists
+    ops += [dict(x, ver="13", poke=70000 + 3 * i) for i, x in enumerate(deep.printed[chk.seed % 3::3])]
+    c06.run_scripts(chk, binary, ops, "replays-across-updates", test="TestVerifReplayOps")
     chk.coverage["rule"] = ("(B) one script per explored edge of each generation configuration of PostHandshake13 (two-sided updates with and without "
                             "request, pending ticket, crafted early record, three successive updates), seeded sample replayed; (C) seeded free-running "
                             "sessions; distinct = distinct model edges covered by replayed scripts + distinct session seeds")
